@@ -265,6 +265,30 @@ def unit_nldf(version, level, rho_mult):
     return run
 
 
+def sym_base(tag):
+    # spin-exchange symmetric baseline: M(a, b) = S(a, b) + S(b, a)   (contract of an exchange-correlation functional of two equivalent spins)
+    def base(X):
+        ns, n0, ng = X.shape
+        m = np.empty((ng,), dtype=object)
+        dm = np.empty((ns, n0, ng), dtype=object)
+        for g in range(ng):
+            cols = [[X[s, i, g] for i in range(n0)] for s in range(ns)]
+            if ns == 1:
+                a = cols[0]
+                m[g] = 2 * ufn("S" + tag, a + a)
+                for i in range(n0):
+                    dm[0, i, g] = 2 * (ufn("D%d_S%s" % (i, tag), a + a) + ufn("D%d_S%s" % (n0 + i, tag), a + a))
+            else:
+                a, b = cols
+                m[g] = ufn("S" + tag, a + b) + ufn("S" + tag, b + a)
+                for i in range(n0):
+                    dm[0, i, g] = ufn("D%d_S%s" % (i, tag), a + b) + ufn("D%d_S%s" % (n0 + i, tag), b + a)
+                    dm[1, i, g] = ufn("D%d_S%s" % (n0 + i, tag), a + b) + ufn("D%d_S%s" % (i, tag), b + a)
+        return m, dm
+    return Builtin("sym." + tag, base)
+
+
+
 def unit_wrappers(version):
     """SEP additivity, NPOL / POL closed-shell agreement and exchange symmetry of the model wrappers."""
     def run(ctx):
@@ -281,28 +305,6 @@ def unit_wrappers(version):
         sig = sym_array("sig", (3, NS))
         hy = [tm.mk_lt(tm.ZERO, r) for r in rho.reshape(-1)]
         it.hyps = list(hy)
-
-        def sym_base(tag):
-            # spin-exchange symmetric baseline: M(a, b) = S(a, b) + S(b, a)   (contract of an exchange-correlation functional of two equivalent spins)
-            def base(X):
-                ns, n0, ng = X.shape
-                m = np.empty((ng,), dtype=object)
-                dm = np.empty((ns, n0, ng), dtype=object)
-                for g in range(ng):
-                    cols = [[X[s, i, g] for i in range(n0)] for s in range(ns)]
-                    if ns == 1:
-                        a = cols[0]
-                        m[g] = 2 * ufn("S" + tag, a + a)
-                        for i in range(n0):
-                            dm[0, i, g] = 2 * (ufn("D%d_S%s" % (i, tag), a + a) + ufn("D%d_S%s" % (n0 + i, tag), a + a))
-                    else:
-                        a, b = cols
-                        m[g] = ufn("S" + tag, a + b) + ufn("S" + tag, b + a)
-                        for i in range(n0):
-                            dm[0, i, g] = ufn("D%d_S%s" % (i, tag), a + b) + ufn("D%d_S%s" % (n0 + i, tag), b + a)
-                            dm[1, i, g] = ufn("D%d_S%s" % (n0 + i, tag), a + b) + ufn("D%d_S%s" % (i, tag), b + a)
-                return m, dm
-            return Builtin("sym." + tag, base)
 
         def kernel(mode):
             fl = abstract_feature_list(it, N0, N1)
@@ -375,6 +377,274 @@ def unit_wrappers(version):
     return run
 
 
+def unit_wrappers_rhocut(version):
+    """The same identities with a positive density cutoff (the default configuration of the integrators): the cutoff regions of the two-channel
+    evaluation must be the images of the one-channel ones.  Region-wise: every pair of paths of the two evaluations whose path conditions are
+    jointly satisfiable is compared under both path conditions."""
+    def run(ctx):
+        it = ctx.interp
+        if version == 2:
+            c04.libxc_contract(it)
+            x = it.load_module(X2MOD)
+        else:
+            x = it.load_module(XMOD)
+        N0, N1 = c04.N0, c04.N1
+        G = 1                      # one grid point: the cutoff acts pointwise (pointwise dependence is a C04 obligation)
+        Xa = sym_array("Xa", (1, N0, G))
+        Xb = sym_array("Xb", (1, N0, G))
+        rho = sym_array("rho", (2, G))
+        sig = sym_array("sig", (3, G))
+        RC = tm.var("rhocut")
+        hy = [tm.mk_lt(tm.ZERO, r) for r in rho.reshape(-1)] + [tm.mk_lt(tm.ZERO, RC)] + [tm.mk_lt(tm.ZERO, Xa[0, 0, g]) for g in range(G)] + [tm.mk_lt(tm.ZERO, Xb[0, 0, g]) for g in range(G)]
+        it.hyps = list(hy)
+        fq = [(X2MOD + ":MappedDFTKernel2.__call__") if version == 2 else (XMOD + ":MappedDFTKernel.__call__")]
+
+        def kernel(mode):
+            fl = abstract_feature_list(it, N0, N1)
+            fevals = c04.make_fevals(it, mode)
+            if version == 2:
+                return it.call(x.ns["MappedDFTKernel2"], [fevals, fl, mode, "GGA_X_PBE"], {"additive_baseline": None})
+            return it.call(x.ns["MappedDFTKernel"], [fevals, fl, mode, sym_base("M")], {"additive_baseline": sym_base("A")})
+
+        def paths(K, X, rt=None):
+            def thunk():
+                if version == 2:
+                    vt = tuple(np.full(np.asarray(r).shape, tm.ZERO, dtype=object) for r in rt)
+                    f, d = it.call(K, [X.copy(), tuple(r.copy() for r in rt), vt], {"rhocut": RC})
+                else:
+                    f, d = it.call(K, [X.copy()], {"rhocut": RC})
+                return f, d
+            return [(v, list(pc)) for o, v, pc, _ in all_paths(it, thunk) if o == "return"]
+
+        def joint(*pcs):
+            H = list(hy) + [c for pc in pcs for c in pc]
+            lits = set(tm.lift(c).id for c in H)
+            if any(tm.mk_not(tm.lift(c)).id in lits for c in H):
+                return None
+            ok, _ = smt.feasible(H, 3.0)
+            return H if ok else None
+        # ---- SEP additivity: E[a, b] = (E[a] + E[b]) / 2 in every cutoff region
+        K = kernel("SEP")
+        Xab = np.concatenate([Xa, Xb], axis=0)
+        # the one-channel evaluations are those of the spin-scaled densities 2 n_a, 2 n_b (statement of the property)
+        rt_ab = (rho, sig)
+        rt_a = (2 * rho[:1], 4 * sig[:1])
+        rt_b = (2 * rho[1:], 4 * sig[2:])
+        P2 = paths(K, Xab, rt_ab)
+        Pa = paths(K, Xa, rt_a)
+        Pb = paths(K, Xb, rt_b)
+        ctx.holds("rhocut SEP: both evaluations return", len(P2) >= 1 and len(Pa) >= 1 and len(Pb) >= 1, "%d/%d/%d paths" % (len(P2), len(Pa), len(Pb)), fq)
+        n = 0
+        for (f2, d2), pc2 in P2:
+            for (fa, da), pca in Pa:
+                for (fb, db), pcb in Pb:
+                    H = joint(pc2, pca, pcb)
+                    if H is None:
+                        continue
+                    n += 1
+                    for g in range(G):
+                        ctx.equal("rhocut SEP E[a,b] = (E[2a]+E[2b])/2 [region %d, point %d]" % (n, g), H, f2[g], HALF * (tm.lift(fa[g]) + tm.lift(fb[g])), fq, replay=replay_rhocut(version, "SEP"))
+                        for i in range(N0):
+                            ctx.equal("rhocut SEP dres[a,%d] = dE[2a]/2 [region %d]" % (i, n), H, d2[0, i, g], HALF * tm.lift(da[0, i, g]), fq, replay=replay_rhocut(version, "SEP"))
+                            ctx.equal("rhocut SEP dres[b,%d] = dE[2b]/2 [region %d]" % (i, n), H, d2[1, i, g], HALF * tm.lift(db[0, i, g]), fq, replay=replay_rhocut(version, "SEP"))
+        ctx.holds("rhocut SEP: compared on at least one jointly satisfiable path combination (cutoff regions are case-split inside each obligation)", n >= 1, "%d" % n, fq)
+        if P2:
+            ctx.canary("rhocut SEP canary (the cutoff is active: the cut energy differs from the uncut one somewhere)", hy, P2[0][0][0][0], tm.substitute(tm.lift(P2[0][0][0][0]), {RC: tm.ZERO}))
+        # ---- NPOL / POL closed shell in every cutoff region
+        for mode in ("NPOL", "POL"):
+            K = kernel(mode)
+            Xaa = np.concatenate([Xa, Xa], axis=0)
+            r1 = (rho[:1], sig[:1])
+            r2 = (np.concatenate([half(rho[:1]), half(rho[:1])], axis=0), np.concatenate([half(sig[:1], Q(1, 4))] * 3, axis=0))
+            if version == 2:
+                ctx.assume("v2 NPOL/POL closed shell with cutoff: only the cutoff regions are compared (the libxc baseline's closed-shell agreement is libxc's contract)")
+            P2 = paths(K, Xaa, r2)
+            P1 = paths(K, Xa, r1)
+            n = 0
+            for (f2, d2), pc2 in P2:
+                for (f1, d1), pc1 in P1:
+                    H = joint(pc2, pc1)
+                    if H is None:
+                        continue
+                    n += 1
+                    for g in range(G):
+                        if version == 2:
+                            # same region <=> same zeroing: the ML factor is cut in both or in neither
+                            z2 = all(tm.lift(d2[s, i, g]) is tm.ZERO for s in range(2) for i in range(N0))
+                            z1 = all(tm.lift(d1[0, i, g]) is tm.ZERO for i in range(N0))
+                            ctx.holds("rhocut %s closed shell: the two-channel evaluation is cut exactly where the one-channel one is [region %d]" % (mode, n), z1 == z2,
+                                      "one-channel cut: %s, two-channel cut: %s" % (z1, z2), fq, replay=replay_rhocut(version, mode))
+                            continue
+                        ctx.equal("rhocut %s closed-shell energy [region %d]" % (mode, n), H, f2[g], f1[g], fq, replay=replay_rhocut(version, mode))
+                        for i in range(N0):
+                            ctx.equal("rhocut %s closed-shell dres sum = unpolarised[%d] [region %d]" % (mode, i, n), H, tm.lift(d2[0, i, g]) + tm.lift(d2[1, i, g]), d1[0, i, g], fq, replay=replay_rhocut(version, mode))
+            ctx.holds("rhocut %s: compared on at least one jointly satisfiable path combination" % mode, n >= 1, "%d" % n, fq)
+    return run
+
+
+def replay_rhocut(version, mode):
+    def replay(wit):
+        from pyvc import native
+        native.install_shim()
+        import ciderpress.dft.xc_evaluator as xe
+        import ciderpress.dft.transform_data as td
+        if version == 2:
+            import ciderpress.dft.xc_evaluator2 as x2
+
+            class Ev2(xe.FuncEvaluator):
+                def __call__(self, X1, res=None, dres=None):
+                    w = np.arange(1, X1.shape[-1] + 1) * 0.3
+                    res[:] += 1.0 + 0.1 * np.sin(X1 @ w)
+                    dres[:] += 0.1 * np.cos(X1 @ w)[:, None] * w
+                    return res, dres
+            fl2 = td.FeatureList([td.UMap(0, 0.7), td.UMap(1, 1.3)])
+            K2 = x2.MappedDFTKernel2([Ev2()], fl2, mode, "GGA_X_PBE")
+            if mode != "SEP":
+                return {"reproduced": None, "note": "v2 native replay covers SEP"}
+            rc = 1.0
+            X = np.array([[[0.6], [0.2]], [[1.7], [0.4]]])
+            rho = np.array([[0.7], [0.9]])                      # n_a, n_b: 2 n_a = 1.4 >= rhocut > n_a
+            sig = np.array([[0.02], [0.01], [0.03]])
+
+            def run(Xin, r, sg):
+                vt = (np.zeros_like(r, order="F"), np.zeros_like(sg, order="F"))
+                return K2(Xin.copy(), (np.asfortranarray(r), np.asfortranarray(sg)), vt, rhocut=rc)[0]
+            e2 = run(X, rho, sig)
+            ea = run(X[:1], 2 * rho[:1], 4 * sig[:1])
+            eb = run(X[1:], 2 * rho[1:], 4 * sig[2:])
+            return {"reproduced": bool(abs(e2[0] - 0.5 * (ea[0] + eb[0])) > 1e-12), "E[a,b]": float(e2[0]), "(E[2a]+E[2b])/2": float(0.5 * (ea[0] + eb[0])), "rhocut": rc, "n_a": 0.7, "n_b": 0.9}
+
+        class Ev(xe.FuncEvaluator):
+            def __call__(self, X1, res=None, dres=None):
+                w = np.arange(1, X1.shape[-1] + 1) * 0.3
+                if X1.ndim == 3:
+                    a, b = X1[0], X1[1]
+                    res[:] += np.sin(a @ w) + np.sin(b @ w)
+                    dres[0] += np.cos(a @ w)[:, None] * w
+                    dres[1] += np.cos(b @ w)[:, None] * w
+                else:
+                    res[:] += np.sin(X1 @ w)
+                    dres[:] += np.cos(X1 @ w)[:, None] * w
+                return res, dres
+
+        def base(X0T):
+            return np.ones(X0T.shape[-1]), np.zeros_like(X0T)
+        fl = td.FeatureList([td.UMap(0, 0.7), td.UMap(1, 1.3)])
+        K = xe.MappedDFTKernel([Ev()], fl, mode, base, None)
+        rc = 1.0
+        if mode == "SEP":
+            # channel a below the cutoff, channel b above, the sum above
+            X = np.array([[[0.6], [0.2]], [[1.7], [0.4]]])
+            e2 = K(X.copy(), rhocut=rc)[0]
+            ea = K(X[:1].copy(), rhocut=rc)[0]
+            eb = K(X[1:].copy(), rhocut=rc)[0]
+            return {"reproduced": bool(abs(e2[0] - 0.5 * (ea[0] + eb[0])) > 1e-12), "E[a,b]": float(e2[0]), "(E[a]+E[b])/2": float(0.5 * (ea[0] + eb[0])), "rhocut": rc, "X[a,0]": 0.6, "X[b,0]": 1.7}
+        X = np.array([[[0.7], [0.2]]])
+        e1 = K(X.copy(), rhocut=rc)[0]
+        e2 = K(np.concatenate([X, X]).copy(), rhocut=rc)[0]
+        return {"reproduced": bool(abs(e1[0] - e2[0]) > 1e-12), "E_unpolarised": float(e1[0]), "E_two_equal_channels": float(e2[0]), "rhocut": rc, "X[0]": 0.7}
+    return replay
+
+
+def unit_generator_spin(version, level):
+    """LCAONLDFGenerator keeps one cache per spin channel: evaluating the features of the other channel in between must not change the potential
+    of this one (frame condition on the per-spin cache), and the two labels are interchangeable."""
+    def run(ctx):
+        from pyvc.interp import ClassV
+        GMOD = "ciderpress.dft.lcao_nldf_generator"
+        it = ctx.interp
+        hyps = []
+        st = make_settings(it, version, level, "one", hyps)
+        RC = tm.var("rhocut")
+        hyps.append(tm.mk_lt(tm.ZERO, RC))
+        nalpha = 2
+        plan = make_plan(it, st, 2, nalpha=nalpha, hyps=hyps, rhocut=RC)
+        gm = it.load_module(GMOD)
+        nvi = it.getattr(plan, "num_vi_ints")
+        nrow = (0 if version == "i" else nalpha) + nvi
+        nrho = 5 if level == "MGGA" else 4
+        fq = [GMOD + ":LCAONLDFGenerator.__init__", GMOD + ":LCAONLDFGenerator.get_features", GMOD + ":LCAONLDFGenerator.get_potential"]
+        tag = "generator[%s,%s]" % (version, level)
+        mk = lambda name, **f: (lambda o: (o.fields.update(f), o)[1])(Obj(ClassV(name, [], gm)))
+        W = sym_array("w", (NS,))
+        gi = mk("_Indexer", ngrids=NS, idx_map=np.array([1, 0]), all_weights=W, padding=0)
+        gi.fields["empty_rlmq"] = Builtin("empty_rlmq", lambda nalpha=1, nspin=None: np.full((1, 1, nalpha), tm.ZERO, dtype=object))
+        gi.fields["empty_gq"] = Builtin("empty_gq", lambda nalpha=1, nspin=None: np.full((NS, nalpha) if nspin is None else (nspin, NS, nalpha), tm.ZERO, dtype=object))
+        ccl = mk("_CCL", atco_inp=mk("_A", nao=1), atco_out=mk("_A", nao=1), num_out=nrow)
+        A = sym_array("A", (NS, nrow, NS, nalpha))
+
+        def fwd(theta_gq, grad_mode=False):
+            out = np.empty((NS, nrow), dtype=object)
+            for g2 in range(NS):
+                for j in range(nrow):
+                    out[g2, j] = tm.mk_add(*[A[g2, j, g, q] * tm.lift(theta_gq[g, q]) for g in range(NS) for q in range(nalpha)])
+            return out
+
+        def bwd(vf_gq):
+            out = np.empty((NS, nalpha), dtype=object)
+            for g in range(NS):
+                for q in range(nalpha):
+                    out[g, q] = tm.mk_add(*[A[g2, j, g, q] * tm.lift(vf_gq[g2, j]) for g2 in range(NS) for j in range(nrow)])
+            return out
+        ctx.assume("convolution chain of LCAONLDFGenerator replaced by an abstract linear operator and its transpose (C05); the coefficient routine by its contract, "
+                   "including that a result written into a caller-supplied buffer aliases that buffer")
+        ra, rb = sym_array("ra", (nrho, NS)), sym_array("rb", (nrho, NS))
+        H = list(hyps) + [tm.mk_lt(RC, x) for x in list(ra[0]) + list(rb[0])] + ([tm.mk_le(tm.ZERO, x) for x in list(ra[4]) + list(rb[4])] if level == "MGGA" else [])
+        it.hyps = list(H)
+
+        def fresh_gen():
+            gen = it.call(gm.ns["LCAONLDFGenerator"], [plan, ccl, mk("_Interp", num_out=nrow), gi], {})
+            gen.fields["_perform_fwd_convolution"] = Builtin("abs.fwd_conv", fwd)
+            gen.fields["_perform_bwd_convolution"] = Builtin("abs.bwd_conv", bwd)
+            return gen
+
+        def run_seq(seq):
+            """seq: list of ('f', rho, spin) / ('p', v, spin); returns the value of the last step, on the single non-raising path."""
+            def thunk():
+                gen = fresh_gen()
+                out = None
+                for kind, arr, spin in seq:
+                    out = it.call_method(gen, "get_features" if kind == "f" else "get_potential", [arr.copy()], {"spin": spin})
+                return out
+            ps = [p for p in all_paths(it, thunk)]
+            return ps
+        try:
+            base = run_seq([("f", ra, 0)])
+        except (Exception,) as e:
+            ctx.undecided("%s constructed" % tag, "%s: %s" % (type(e).__name__, str(e)[:200]), fq)
+            return
+        ok = [p for p in base if p[0] == "return"]
+        ctx.holds("%s get_features returns" % tag, len(ok) == 1, "%s" % [str(p[1])[:120] for p in base if p[0] != "return"][:1], fq)
+        if len(ok) != 1:
+            return
+        feat = np.asarray(ok[0][1], dtype=object)
+        v = sym_array("v", feat.shape)
+
+        def only(seq):
+            ps = [p for p in run_seq(seq) if p[0] == "return"]
+            return (np.asarray(ps[0][1], dtype=object), list(ps[0][2])) if len(ps) == 1 else (None, None)
+        v_alone, pc0 = only([("f", ra, 0), ("p", v, 0)])
+        v_inter, pc1 = only([("f", ra, 0), ("f", rb, 1), ("p", v, 0)])
+        v_swap, pc2 = only([("f", rb, 0), ("f", ra, 1), ("p", v, 1)])
+        v_inter2, pc3 = only([("f", rb, 1), ("f", ra, 0), ("f", rb, 1), ("p", v, 0)])
+        ctx.holds("%s potentials return" % tag, all(x is not None for x in (v_alone, v_inter, v_swap, v_inter2)), "", fq)
+        if any(x is None for x in (v_alone, v_inter, v_swap, v_inter2)):
+            return
+        for c in range(nrho):
+            for g in range(NS):
+                ctx.equal("%s potential of spin 0 is unchanged by a feature evaluation for spin 1 in between [%d,%d]" % (tag, c, g), H + pc0 + pc1, v_inter[c, g], v_alone[c, g], fq, replay=replay_generator_spin())
+                ctx.equal("%s ... also when spin 1 was evaluated before and after [%d,%d]" % (tag, c, g), H + pc0 + pc3, v_inter2[c, g], v_alone[c, g], fq, replay=replay_generator_spin())
+                ctx.equal("%s the spin labels are interchangeable (same density under the other label gives the same potential) [%d,%d]" % (tag, c, g), H + pc0 + pc2, v_swap[c, g], v_alone[c, g], fq, replay=replay_generator_spin())
+        ctx.canary("%s canary (the potential depends on the density of its own channel)" % tag, H + pc0, v_alone[0, 0], tm.substitute(tm.lift(v_alone[0, 0]), {ra[0, 0]: rb[0, 0]}))
+    return run
+
+
+def replay_generator_spin():
+    def replay(wit):
+        return {"reproduced": None, "note": "native replay needs the full LCAO generator set-up (atco, convolution collection, interpolator)"}
+    return replay
+
+
 def units():
     u = [("exponent/mgga", unit_exponent(False)), ("exponent/gga", unit_exponent(True)), ("rho-tuple", unit_rho_tuple)]
     for mode in ("nst", "npa", "ns", "np"):
@@ -383,8 +653,12 @@ def units():
         for level in ("MGGA", "GGA"):
             for rm in ("one", "expnt"):
                 u.append(("nldf/%s/%s/%s" % (version, level, rm), unit_nldf(version, level, rm)))
+    for version in ("j", "ij"):
+        u.append(("generator-spin/%s" % version, unit_generator_spin(version, "MGGA")))
     u.append(("wrappers/v1", unit_wrappers(1)))
     u.append(("wrappers/v2", unit_wrappers(2)))
+    u.append(("wrappers-rhocut/v1", unit_wrappers_rhocut(1)))
+    u.append(("wrappers-rhocut/v2", unit_wrappers_rhocut(2)))
     return u
 
 
